@@ -275,6 +275,84 @@ def many_patterns_pass(ctx, rec):
                               [list(map(str, e)) for e in new[:6]], key=f'regenerated:after-many-patterns:{new[0][0]}')
 
 
+def rejecting_wrapper_pass(ctx, rec):
+    """(a) a wrapper whose compiled functions reject some coefficient types by raising (numba-like: floats only), called with
+    Fractions / big ints for patterns that are already cached: the call may raise what the wrapped function raises, but nothing
+    is generated, compiled or wrapped again, however often it is repeated; (b) re-assigning to an existing algebra the options
+    it already has (`alg.wrapper = backend.jit` - a bound method is a new object on every access -, `alg.cse = alg.cse`,
+    `alg.codegen_symbolcls = ..`) between two calls with the same patterns leaves every cache alone"""
+    from kingdon import MultiVector
+    from kingdon.polynomial import RationalPolynomial
+    rng = ctx.rng
+
+    class Backend:
+        def __init__(self): self.n = 0
+        def jit(self, f):
+            rec.events.append(('wrap', f.__name__))
+            def only_floats(*args):
+                for a in args:
+                    for v in a:
+                        if not isinstance(v, float):
+                            raise TypeError('cannot determine the type of ' + type(v).__name__)
+                return f(*args)
+            only_floats.__name__ = f.__name__
+            return only_floats
+        def __eq__(self, other): return isinstance(other, Backend)
+        def __hash__(self): return 1
+    # (a)
+    backend = Backend()
+    alg = make_algebra([1, 1, 1], wrapper=backend.jit)
+    kx, ky = (1, 2, 4), (1, 2, 4)
+    for op in ('gp', 'add', 'ip', 'op', 'sw'):
+        BIN[op](MultiVector.fromkeysvalues(alg, kx, [1.0, 2.0, 3.0]), MultiVector.fromkeysvalues(alg, ky, [2.0, 1.0, 0.5]))
+        for rep in range(3):
+            before = len(rec.events)
+            try:
+                BIN[op](MultiVector.fromkeysvalues(alg, kx, [Fraction(1, 2), Fraction(2), Fraction(3)]), MultiVector.fromkeysvalues(alg, ky, [2 ** 70, 1, 5]))
+                outcome = 'returned'
+            except Exception as ex:
+                outcome = 'raised ' + type(ex).__name__
+            new = rec.events[before:]
+            case = {'sig': [1, 1, 1], 'wrapper': 'accepts floats only', 'op': op, 'coefficients': 'Fraction / big int', 'repetition': rep, 'call': outcome}
+            ctx.case(case, nontrivial=True, tag='repeat:rejected-coefficients')
+            if new:
+                ctx.violation('regenerated', case, 'no generation/compile/wrap event for a cached pattern', [list(map(str, e)) for e in new[:6]],
+                              key=f'regenerated:rejecting-wrapper:{new[0][0]}')
+                break
+    # (b)
+    backend = Backend()
+    alg = make_algebra([0, 1, 1], wrapper=backend.jit)
+    def reg_body(a, b): return a * b - (a ^ b)
+    rf = alg.register(reg_body)
+    calls = [('gp', lambda x, y: x * y), ('sw', lambda x, y: x >> y), ('neg', lambda x, y: -x), ('registered', lambda x, y: rf(x, y))]
+    mkxy = lambda: (MultiVector.fromkeysvalues(alg, (1, 2, 4), [float(rng.randint(1, 9)) for _ in range(3)]), MultiVector.fromkeysvalues(alg, (3, 5), [float(rng.randint(1, 9)) for _ in range(2)]))
+    for nm, fn in calls:
+        fn(*mkxy())
+    reassign = [('alg.wrapper = backend.jit', lambda: setattr(alg, 'wrapper', backend.jit)), ('alg.cse = alg.cse', lambda: setattr(alg, 'cse', alg.cse)),
+                ('alg.graded = alg.graded', lambda: setattr(alg, 'graded', alg.graded)),
+                ('alg.codegen_symbolcls = RationalPolynomial.fromname', lambda: setattr(alg, 'codegen_symbolcls', RationalPolynomial.fromname) if alg.codegen_symbolcls is not None else None),
+                ('alg.simp_func = alg.simp_func', lambda: setattr(alg, 'simp_func', alg.simp_func))]
+    for rname, doit in reassign:
+        try:
+            doit()
+        except Exception as ex:
+            ctx.count('reassign-raises:' + type(ex).__name__)
+            continue
+        for nm, fn in calls:
+            before = len(rec.events)
+            try:
+                fn(*mkxy())
+            except Exception:
+                pass
+            new = rec.events[before:]
+            case = {'sig': [0, 1, 1], 'call': nm, 'between_the_calls': rname + ' (the option it already has)'}
+            ctx.case(case, nontrivial=True, tag='repeat:after-reassigning-options')
+            if new:
+                ctx.violation('regenerated', case, 'no generation/compile/wrap event for a cached pattern', [list(map(str, e)) for e in new[:6]],
+                              key=f'regenerated:reassigned-option:{new[0][0]}')
+                break
+
+
 def lambda_free_square():
     def square_fn(x):
         return x * x
@@ -387,6 +465,7 @@ def run(ctx):
         odd_keys_pass(ctx, rec)
         sequential_threads_pass(ctx, rec)
         many_patterns_pass(ctx, rec)
+        rejecting_wrapper_pass(ctx, rec)
     finally:
         rec.uninstall()
     out = ctx.drive(lines)
